@@ -49,7 +49,7 @@ func TestMain(m *testing.M) {
 	}
 	core.DeclareFaults("preemption", "preemption-inside-tink-call", "task-finished-handover", "free-run-fallback")
 	core.DeclareProbes("globally-sourced-randomness(semantic oracle)", "legacy-adapter", "multi-key-keyset", "handle-reads", "construct-under-schedule",
-		"registry-lookup", "keygen-under-schedule", "accept-rejects-corrupted", "race-build", "monitored-handle", "monitoring-events-compared", "round-robin-plan", "site-targeted-plan")
+		"registry-lookup", "keygen-under-schedule", "accept-rejects-corrupted", "race-build", "monitored-handle", "monitoring-events-compared", "round-robin-plan", "site-targeted-plan", "reparse-construct-under-schedule")
 	stubkm.Register()
 	core.Main(m, prop, "sched", map[string]string{"everything in /repo": "real (instrumented copies via -overlay: yield call before every statement, semantics unchanged)",
 		"goroutine scheduling": "stub (simsched baton, plan drawn by rapid)", "crypto/rand": "stub (simrng, one lane per task)",
@@ -79,13 +79,14 @@ type op struct {
 }
 
 type shared struct {
-	class    string
-	entry    catalog.Entry
-	h        *keyset.Handle
-	prod     *classes.Producer
-	acc      *classes.Acceptor
-	semantic bool
-	outputs  [][3][]byte // pre-produced (out, msg, aux)
+	class     string
+	entry     catalog.Entry
+	h         *keyset.Handle
+	prod      *classes.Producer
+	acc       *classes.Acceptor
+	semantic  bool
+	monitored bool
+	outputs   [][3][]byte // pre-produced (out, msg, aux)
 }
 
 var arena []byte
@@ -169,7 +170,9 @@ func drawEntry(t *rapid.T, class string, label string) catalog.Entry {
 	byType := map[string][]catalog.Entry{}
 	var types []string
 	for _, e := range all {
-		if e.Cost <= maxCost() && (focus == "" || strings.HasPrefix(e.Name, focus)) && catalog.Quirk(e) == "" {
+		// RSA-based entries are "Cost 2" only because of key generation; their keys come from the pool, and
+		// signing/verifying is cheap, so they take part in the quick tier too
+		if (e.Cost <= maxCost() || e.RSABased()) && (focus == "" || strings.HasPrefix(e.Name, focus)) && catalog.Quirk(e) == "" {
 			if _, ok := byType[e.KeyType]; !ok {
 				types = append(types, e.KeyType)
 			}
@@ -236,6 +239,7 @@ func runSched(t *rapid.T) {
 		if monitored {
 			r.Probe("monitored-handle")
 		}
+		sh.monitored = monitored
 		h, err := buildHandle(es, prim, monitored)
 		if err != nil {
 			r.Logf("keyset refused: %v", err)
@@ -547,7 +551,7 @@ func coldTwin(sh *shared, monitored bool) (*shared, error) {
 		core.CountGlobal("cold-twin-shares-handle:" + sh.entry.KeyType)
 		h = sh.h
 	}
-	c := &shared{class: sh.class, entry: sh.entry, h: h, semantic: sh.semantic, outputs: sh.outputs}
+	c := &shared{class: sh.class, entry: sh.entry, h: h, semantic: sh.semantic, outputs: sh.outputs, monitored: monitored}
 	if c.prod, err = classes.NewProducer(c.class, h); err != nil {
 		return nil, err
 	}
@@ -617,7 +621,7 @@ func drawOp(t *rapid.T, r *core.Run, sh *shared, scenario, label string) op {
 		kinds = []string{"produce"}
 	}
 	if scenario == "handle" {
-		kinds = []string{"produce", "accept", "keysetinfo", "string", "entries", "public", "construct", "construct", "registry", "serialize-parse", "keygen"}
+		kinds = []string{"produce", "accept", "keysetinfo", "string", "entries", "public", "construct", "construct", "reparse-construct", "reparse-construct", "registry", "serialize-parse", "keygen"}
 		if sh.acc == nil {
 			kinds = kinds[2:]
 			kinds[0] = "produce"
@@ -647,7 +651,9 @@ func drawOp(t *rapid.T, r *core.Run, sh *shared, scenario, label string) op {
 		}
 		return op{name: "accept-corrupted", run: func(sh *shared) ([]byte, error) { return nil, sh.acc.Accept(bad, pre[1], pre[2]) }}
 	case "keysetinfo":
-		return op{name: "keysetinfo", run: func(sh *shared) ([]byte, error) { return proto.MarshalOptions{Deterministic: true}.Marshal(sh.h.KeysetInfo()) }}
+		return op{name: "keysetinfo", run: func(sh *shared) ([]byte, error) {
+			return proto.MarshalOptions{Deterministic: true}.Marshal(sh.h.KeysetInfo())
+		}}
 	case "string":
 		return op{name: "string", run: func(sh *shared) ([]byte, error) { return []byte(sh.h.String()), nil }}
 	case "entries":
@@ -697,6 +703,41 @@ func drawOp(t *rapid.T, r *core.Run, sh *shared, scenario, label string) op {
 			}
 			if sh.semantic {
 				return nil, nil
+			}
+			return p.Produce(msg, aux)
+		}}
+	case "reparse-construct":
+		// every task obtains its OWN handle (the stored keyset parsed again, annotated like the shared one) and builds
+		// and uses primitives from it: handle construction, factories and whatever process-wide state they touch
+		// (registries, monitoring set-up) run concurrently on distinct handles
+		r.Probe("reparse-construct-under-schedule")
+		msg, aux := slice(t, label+"msg"), slice(t, label+"aux")
+		pre := sh.outputs[0]
+		return op{name: "reparse-construct", run: func(sh *shared) ([]byte, error) {
+			var opts []keyset.Option
+			if sh.monitored {
+				opts = append(opts, keyset.WithAnnotations(map[string]string{"sim": "sched"}))
+			}
+			ks := insecurecleartextkeyset.KeysetMaterial(sh.h)
+			h, err := insecurecleartextkeyset.Read(&keyset.MemReaderWriter{Keyset: ks}, opts...)
+			if err != nil {
+				return nil, nil // keysets that cannot be re-read from their own serialization (see coldTwin)
+			}
+			if sh.acc != nil {
+				a, err := classes.NewAcceptor(sh.class, h)
+				if err != nil {
+					return nil, err
+				}
+				if err := a.Accept(pre[0], pre[1], pre[2]); err != nil {
+					return nil, err
+				}
+			}
+			p, err := classes.NewProducer(sh.class, h)
+			if err != nil {
+				return nil, err
+			}
+			if sh.semantic {
+				return []byte(h.String()), nil
 			}
 			return p.Produce(msg, aux)
 		}}
